@@ -868,6 +868,17 @@ impl<'l> CelCompiler<'l> {
                 let (not_list, ast) = tail?;
                 let node = compile!([ByteCode::Not.into()], not_list, not_list);
 
+                // The end of the run sits right behind this operator. The tokenizer has
+                // already scanned past the operand's first token by now, its location
+                // would put the empty tail inside the operand.
+                let ast = match ast.node() {
+                    NotList::EmptyList => AstNode::new(
+                        NotList::EmptyList,
+                        SourceRange::new(loc.end(), loc.end()),
+                    ),
+                    _ => ast,
+                };
+
                 let range = ast.range().surrounding(loc);
 
                 Ok((
@@ -903,6 +914,15 @@ impl<'l> CelCompiler<'l> {
                 self.leave_nested();
                 let (neg_list, ast) = tail?;
                 let node = compile!([ByteCode::Neg.into()], neg_list, neg_list);
+
+                // See parse_not_list: the empty tail sits right behind this operator.
+                let ast = match ast.node() {
+                    NegList::EmptyList => AstNode::new(
+                        NegList::EmptyList,
+                        SourceRange::new(loc.end(), loc.end()),
+                    ),
+                    _ => ast,
+                };
 
                 let range = ast.range().surrounding(loc);
 
